@@ -1,4 +1,4 @@
-// driver TU for C09 (awaitable queue) - instantiation by use.
+// driver TU for C09 (awaitable queue): instantiates by use queue<int>, queue<void> (push, pop incl. the future-constructor lambda, unblock_pop, size, empty, ctor, dtor) and std_queue<void>.
 #include <cocls/queue.h>
 using namespace cocls;
 extern "C" {
